@@ -16,7 +16,13 @@ import (
 func H_C07_undel() {
 	id := "C07.undel"
 	k := nd.Choice("packing", 6)
-	st := Build([]Pos{{0, 0, 0}, {1, 1, 0}}, Opts{NDenoms: 2})
+	ps := []Pos{{0, 0, 0}, {1, 1, 0}}
+	if nd.Choice("emptied", 2) == 1 {
+		// the slashed validator holds no bonded alliance stake any more (everybody left), only the
+		// pending entries remain
+		ps = []Pos{{1, 1, 0}}
+	}
+	st := Build(ps, Opts{NDenoms: 2})
 	e := st.E
 	c1 := nd.TimeRange("c1", TLo, THi)
 	q1 := nd.IntRange("q1", "1", Pow30)
@@ -81,6 +87,34 @@ func H_C07_undel() {
 	for a := 0; a < 2; a++ {
 		nd.Assert(id+".fee", e.Bank.Balance(fee, Denoms[a]).Equal(preFee[a].Add(expFee[a])))
 	}
+}
+
+// H_C07_redel_indep: the slash of one pending redelegation does not depend on the OTHER redelegations
+// out of the slashed validator - in particular not on an (earlier- or later-sorting) one whose
+// destination position no longer exists. Differential: the same slash on the state with and without
+// the extra redelegation must leave the same destination position.
+func H_C07_redel_indep() {
+	id := "C07.redel.indep"
+	st := Build([]Pos{{0, 0, 0}, {0, 1, 0}, {1, 1, 0}}, Opts{NVals: 3})
+	e := st.E
+	c1 := nd.TimeRange("c1", TLo, THi)
+	InstallRedelegation(e, 0, 0, 1, 0, nd.IntRange("r1", "1", Pow30), c1)
+	b := e.Branch()
+	// delegator 1 redelegated v0 -> v2 and has since left v2 completely
+	InstallRedelegation(e, 1, 0, 2, 0, nd.IntRange("r0", "1", Pow30), nd.TimeRange("c0", TLo, THi))
+	f := nd.DecRange("fraction", "0.000000000000000001", "1")
+	nd.Hint(f.Equal(math.LegacyNewDecWithPrec(5, 1)))
+	var errA, errB error
+	if Caught(func() { errA = e.K.StakingHooks().BeforeValidatorSlashed(e.Ctx, Vals[0], f) }) || errA != nil {
+		return // totality is C08's subject
+	}
+	if Caught(func() { errB = b.K.StakingHooks().BeforeValidatorSlashed(b.Ctx, Vals[0], f) }) || errB != nil {
+		return
+	}
+	nd.Reach(id)
+	dA, _ := delegationShares(e, Pos{0, 1, 0})
+	dB, _ := delegationShares(b, Pos{0, 1, 0})
+	nd.Assert(id, nd.And(dA.Equal(dB), delShares(e, 1, Denoms[0]).Equal(delShares(b, 1, Denoms[0]))))
 }
 
 // H_C07_redel: slashing the source validator of a pending redelegation removes shares from the
